@@ -85,6 +85,16 @@ func (g *gen) explicitID(v *wsView, above bool, nRaw int, slot *int) uint64 {
 			}
 			id = base + uint64(*slot)*uint64(nRaw+2)
 			*slot++
+			if g.r.Chance(1, 12) {
+				// the largest IDs validation lets an event carry (MaxRecordID = MaxInt64 and the one below): the generator
+				// then works above MaxRecordID, and a generator rebuilt from the log must follow it there
+				for _, top := range []uint64{1<<63 - 1, 1<<63 - 2} {
+					if !v.used[top] && g.r.Bool() {
+						v.used[top] = true
+						return top
+					}
+				}
+			}
 			if g.r.Chance(1, 40) && !v.used[^uint64(0)] {
 				// the largest ID: UpdateOnSync must leave the generator alone (its successor does not fit)
 				v.used[^uint64(0)] = true
@@ -400,7 +410,9 @@ func (g *gen) genEvent(ws uint64, via string) (*eventSpec, []string) {
 				id := g.explicitID(v, above, len(argRaw)+len(cudRaw), &slot)
 				v.used[id] = true // reserved for this scenario even if the event is refused
 				replaceVal(ev, raw, id)
-				if id == ^uint64(0) {
+				if id == 1<<63-1 || id == 1<<63-2 {
+					tags = append(tags, "explicit-at-max-record-id")
+				} else if id == ^uint64(0) {
 					tags = append(tags, "explicit-max-uint64")
 				} else if above {
 					tags = append(tags, "explicit-above-next")
